@@ -86,6 +86,10 @@ func genC14(w *bufio.Writer, tier string, rng *rand.Rand) {
 			default:
 				mn, width = float64(rng.Intn(20)-10)/4, float64(nb)*math.Ldexp(1, rng.Intn(7)-3)
 			}
+			if rng.Intn(15) == 0 { // any min < max: ranges near the ends of the float64 range
+				width = math.Ldexp(float64(1+rng.Intn(7)), []int{1015, 1000, -1000, -1015, 900}[rng.Intn(5)])
+				mn = []float64{0, -width / 4, width / 8}[rng.Intn(3)]
+			}
 			mx := mn + width
 			bw := width / float64(nb)
 			xs := make([]float64, nx)
